@@ -5,6 +5,7 @@
 // activations globally, everything handled when unregister returns, no deadlock, shutdown returns.
 #include "sched/sched.h"
 #include "system/ThreadPool.h"
+#include "util/ObjectPool.h"
 #include "system/SetupSystem.h"
 #include "syslog/SysLog.h"
 #include "util/NetworkUtilityFunctions.h"
@@ -14,8 +15,8 @@ const char * vf_harness_name = "c19_threadpool";
 
 struct Log
 {
-   int active[4]; int sent[4]; bool switching[4]; int followUps[4]; int followUpsSent; int globalActive; int maxGlobal; std::vector<int> handled[4]; bool submissionBetweenLastAndFinish; int poolSize; std::string desc; vsched::Scheduler * sc; uint8_t yields;
-   Log() : globalActive(0), maxGlobal(0), submissionBetweenLastAndFinish(false), poolSize(0), sc(NULL), yields(1) {for (int i=0; i<4; i++) {active[i] = 0; sent[i] = 0; switching[i] = false; followUps[i] = 0;} followUpsSent = 0;}
+   int active[4]; int sent[4]; bool switching[4]; int followUps[4]; int followUpsSent; volatile bool shutdownBegun; volatile int unregisteringWithBacklog; int globalActive; int maxGlobal; std::vector<int> handled[4]; bool submissionBetweenLastAndFinish; int poolSize; std::string desc; vsched::Scheduler * sc; uint8_t yields;
+   Log() : globalActive(0), maxGlobal(0), submissionBetweenLastAndFinish(false), poolSize(0), sc(NULL), yields(1) {for (int i=0; i<4; i++) {active[i] = 0; sent[i] = 0; switching[i] = false; followUps[i] = 0;} followUpsSent = 0; shutdownBegun = false; unregisteringWithBacklog = 0;}
 };
 static Log * g_log = NULL;
 
@@ -55,20 +56,27 @@ extern "C" int vf_run_case(const uint8_t * data, size_t size)
    if (size < 6) return 0;
    vf::BS bs(data, size);
    const int P = 1+bs.u8()%3, NC = 1+bs.u8()%4; int NS = 1+bs.u8()%3; if (NS > NC) NS = NC;
-   Log log; g_log = &log; log.poolSize = P; const uint8_t yb = bs.u8(); log.yields = (uint8_t)(yb%4); const bool earlyShutdown = ((yb>>2)%4 == 0); const bool twoPools = (((yb>>4)&1) != 0); const int P2 = 1+(yb>>5)%3; if (twoPools) log.poolSize = P+P2;     // earlyShutdown: the pool is destroyed with clients still registered and Messages possibly pending or being handled
+   Log log; g_log = &log; log.poolSize = P; const uint8_t yb = bs.u8(); log.yields = (uint8_t)(yb%4); const bool earlyShutdown = ((yb>>2)%4 == 0); const bool midShutdown = ((yb>>2)%4 == 1);     /* midShutdown: the pool is shut down (Shutdown(), the pool object stays) while submitters are still at work, as soon as one of them is waiting in an unregistration with Messages outstanding */ const bool twoPools = (((yb>>4)&1) != 0)&&(midShutdown == false); const int P2 = 1+(yb>>5)%3; if (twoPools) log.poolSize = P+P2;     // earlyShutdown: the pool is destroyed with clients still registered and Messages possibly pending or being handled
    // per-submitter script: ops = (client, kind) with kind 0..5 send, 6 unregister+verify+re-register
    std::vector<std::vector<uint8_t> > scripts(NS); for (int s=0; s<NS; s++) {const uint32 n = 1+bs.u8()%10; for (uint32 i=0; i<n; i++) scripts[s].push_back(bs.u8());}
    char desc[160]; if (twoPools) snprintf(desc, sizeof(desc), "pools of %d and %d, %d client(s), %d submitting thread(s), handlers last %u context switches", P, P2, NC, NS, log.yields*40u); else snprintf(desc, sizeof(desc), "pool of %d, %d client(s), %d submitting thread(s), handlers last %u context switches", P, NC, NS, log.yields*40u); log.desc = desc;
    if (vf::Verbose()) fprintf(stderr, "config: %s\n", desc);
 
    vsched::ByteSource src(bs, (uint8_t)(bs.flip() ? 0x80 : 0xC0)); vsched::Scheduler sc(src); sc.SetContext(desc); log.sc = &sc;
-   ThreadPool * pool = NULL; ThreadPool * pool2 = NULL; ThreadPool * curPool[4] = {NULL, NULL, NULL, NULL}; uint32 switches = 0; bool sawSwitchWithBacklog = false; Client * clients[4] = {NULL, NULL, NULL, NULL};
+   ThreadPool * pool = NULL; ThreadPool * pool2 = NULL; ThreadPool * curPool[4] = {NULL, NULL, NULL, NULL}; uint32 switches = 0; bool sawSwitchWithBacklog = false, shutdownWhileUnregistering = false; Client * clients[4] = {NULL, NULL, NULL, NULL};
    volatile bool go = false; volatile int doneCount = 0; uint32 totalSubmitted = 0, unregisters = 0; bool sawUnregisterWithBacklog = false; size_t handledAtShutdown[4] = {0, 0, 0, 0};
 
    sc.Spawn([&]{   // main logical thread: owns the pool
       pool = new ThreadPool((uint32)P); if (twoPools) pool2 = new ThreadPool((uint32)P2);
       for (int c=0; c<NC; c++) {clients[c] = new Client(c); clients[c]->SetThreadPool(pool); curPool[c] = pool;}
       go = true;
+      if (midShutdown)
+      {
+         sc.WaitUntil([&]{return (log.unregisteringWithBacklog > 0)||(doneCount == NS);}, "a submitter to wait in an unregistration (or all of them to finish)");
+         if (log.unregisteringWithBacklog > 0) shutdownWhileUnregistering = true;
+         log.shutdownBegun = true; AbstractObjectRecycler::GlobalFlushAllCachedObjects();      // the public way to it: flushing every recycler of the process calls the Shutdown() of every ThreadPool (and drains the object pools).  It must return; from here on the pool takes no more work and what was pending is dropped
+         if (log.globalActive != 0) vf::Fail("%d handler(s) still running after the pool's Shutdown() returned (%s)", log.globalActive, desc);
+      }
       sc.WaitUntil([&]{return doneCount == NS;}, "submitters to finish");
       if (earlyShutdown)
       {
@@ -91,7 +99,8 @@ extern "C" int vf_run_case(const uint8_t * data, size_t size)
       std::vector<int> mine; for (int c=s; c<NC; c+=NS) mine.push_back(c);
       for (size_t i=0; i<=scripts[s].size(); i++)
       {
-         const bool tail = (i == scripts[s].size());
+         bool tail = (i == scripts[s].size());
+         if ((tail == false)&&(log.shutdownBegun)) {i = scripts[s].size(); tail = true;}      // the pool has been shut down: nothing more is submitted, the clients are taken off it
          const uint8_t b = tail ? 0 : scripts[s][i]; const int c = mine[(b>>3)%mine.size()]; const uint8_t kind = b%8;
          if ((tail == false)&&(kind == 7)&&(twoPools))
          {
@@ -110,7 +119,7 @@ extern "C" int vf_run_case(const uint8_t * data, size_t size)
          {
             if ((log.active[c] == 0)&&(log.handled[c].size() < (size_t)sent[c])) {/* queued, not being handled */}
             MessageRef m = GetMessageFromPool((uint32)(c*1000+sent[c]));
-            if (clients[c]->SendMessageToThreadPool(m).IsError()) vf::Fail("SendMessageToThreadPool failed (%s)", desc);
+            if (clients[c]->SendMessageToThreadPool(m).IsError()) {if (log.shutdownBegun == false) vf::Fail("SendMessageToThreadPool failed (%s)", desc); continue;}     // (refused by a pool that is shutting down)
             sent[c]++; totalSubmitted++;
          }
          else
@@ -120,12 +129,20 @@ extern "C" int vf_run_case(const uint8_t * data, size_t size)
             for (size_t q=0; q<mine.size(); q++)
             {
                const int cc = tail ? mine[q] : c; if ((tail == false)&&(q > 0)) break;
-               if ((int)log.handled[cc].size() < sent[cc]) sawUnregisterWithBacklog = true;
+               const bool backlog = ((int)log.handled[cc].size() < sent[cc]); if (backlog) {sawUnregisterWithBacklog = true; log.unregisteringWithBacklog = log.unregisteringWithBacklog+1;}
                clients[cc]->SetThreadPool(NULL); unregisters++;
+               if (backlog) log.unregisteringWithBacklog = log.unregisteringWithBacklog-1;
+               if (log.shutdownBegun)
+               {
+                  // the pool was shut down under this unregistration: what was still pending is dropped with it, but no handler of this client may be running now, and what was handled is an in-order prefix
+                  if (log.active[cc] != 0) vf::Fail("a handler of client %d is still running after its unregistration returned during the pool's shutdown (%s)", cc, desc);
+                  for (size_t k=0; k<log.handled[cc].size(); k++) if (log.handled[cc][k] != cc*1000+(int)k) vf::Fail("client %d: Message %zu handled out of order or twice before the shutdown (got #%d) (%s)", cc, k, log.handled[cc][k]-cc*1000, desc);
+                  continue;
+               }
                if ((int)log.handled[cc].size() != sent[cc]) vf::Fail("UnregisterClient returned with %zu of %d submitted Messages of client %d handled (%s)", log.handled[cc].size(), sent[cc], cc, desc);
                if (log.active[cc] != 0) vf::Fail("a handler of client %d is still running after unregistration returned (%s)", cc, desc);
                for (size_t k=0; k<log.handled[cc].size(); k++) if (log.handled[cc][k] != cc*1000+(int)k) vf::Fail("client %d: Message %zu handled out of order or twice (got #%d) (%s)", cc, k, log.handled[cc][k]-cc*1000, desc);
-               if (tail == false) {clients[cc]->SetThreadPool(curPool[cc]);}    // register again and carry on
+               if ((tail == false)&&(log.shutdownBegun == false)) {clients[cc]->SetThreadPool(curPool[cc]);}    // register again and carry on
             }
          }
       }
@@ -136,12 +153,13 @@ extern "C" int vf_run_case(const uint8_t * data, size_t size)
    g_log = NULL;
    uint32 handledTotal = 0; for (int c=0; c<4; c++) handledTotal += (uint32) log.handled[c].size();
    totalSubmitted += (uint32) log.followUpsSent;
-   if ((earlyShutdown == false)&&(handledTotal != totalSubmitted)) vf::Fail("%u Messages submitted, %u handled (%s)", totalSubmitted, handledTotal, desc);
+   if (midShutdown) {if (handledTotal > totalSubmitted) vf::Fail("%u Messages submitted, %u handled (%s)", totalSubmitted, handledTotal, desc); vf::Count("case_pool_shut_down_while_submitters_at_work"); if (shutdownWhileUnregistering) vf::Count("case_pool_shut_down_under_a_waiting_unregistration");}
+   else if ((earlyShutdown == false)&&(handledTotal != totalSubmitted)) vf::Fail("%u Messages submitted, %u handled (%s)", totalSubmitted, handledTotal, desc);
    if (earlyShutdown) {for (int c=0; c<NC; c++) if (log.handled[c].size() != handledAtShutdown[c]) vf::Fail("client %d: a Message was handled after the pool's destructor had returned (%s)", c, desc); vf::Count("case_pool_destroyed_with_clients_registered"); if (handledTotal < totalSubmitted) vf::Count("case_pool_destroyed_with_messages_pending");}
 
    vf::Count("context_switches", sc.Switches()); vf::Count("preemptions", sc.Preemptions()); vf::Count("messages_handled", handledTotal); vf::Count("unregistrations_checked", unregisters);
    if (log.maxGlobal >= 2) vf::Count("case_handlers_ran_in_parallel"); if (NC > P) vf::Count("case_more_clients_than_pool_threads"); if (sawUnregisterWithBacklog) vf::Count("case_unregister_with_messages_outstanding"); if (sawSwitchWithBacklog) vf::Count("case_client_moved_to_another_pool_with_messages_outstanding"); if (log.followUpsSent) vf::Count("case_handler_submitted_follow_up_during_a_pool_move"); vf::Count("pool_moves_checked", switches);
-   const bool nontrivial = (sawUnregisterWithBacklog)||(sawSwitchWithBacklog)||((log.maxGlobal >= 2)&&(sc.Preemptions() >= 1))||((earlyShutdown)&&(handledTotal < totalSubmitted));
+   const bool nontrivial = (sawUnregisterWithBacklog)||(sawSwitchWithBacklog)||(shutdownWhileUnregistering)||((log.maxGlobal >= 2)&&(sc.Preemptions() >= 1))||((earlyShutdown)&&(handledTotal < totalSubmitted));
    if (nontrivial) {uint64_t h = vf::HashStr(desc); for (size_t i=0; i<src.trace.size(); i++) h = vf::HashMix(h, src.trace[i]); for (int s=0; s<NS; s++) h = vf::Hash64(scripts[s].data(), scripts[s].size(), h); vf::NonTrivial(h); if (vf::WantSample()) vf::Sample(std::string(desc)+" | "+std::to_string(totalSubmitted)+" Messages, "+std::to_string(unregisters)+" unregistrations, max "+std::to_string(log.maxGlobal)+" handlers at once, "+std::to_string(sc.Switches())+" switches");}
    return 0;
 }
